@@ -11,6 +11,7 @@ package vsched
 import (
 	"context"
 	"fmt"
+	"reflect"
 	"sort"
 	"unsafe"
 )
@@ -127,6 +128,25 @@ func Close[T any](ch chan<- T) {
 	if op.panicMsg != "" {
 		panic(op.panicMsg)
 	}
+}
+
+// ChanLen stands in for len(ch): the model keeps the buffered values, the real
+// channel stays empty. Reading the length is a visible operation on the channel.
+func ChanLen(ch any) int {
+	v := reflect.ValueOf(ch)
+	if !active() || v.IsNil() {
+		return v.Len()
+	}
+	x := theExec.Load()
+	x.mu.Lock()
+	c := x.chans[v.Pointer()]
+	x.mu.Unlock()
+	if c == nil || c.foreign != nil {
+		return v.Len()
+	}
+	op := &pendingOp{kind: opChanLen, ch: c}
+	yield(op)
+	return op.selIdx
 }
 
 // SelCase is one communication clause of a select.
